@@ -97,6 +97,13 @@ def document(draw):
     for tn in tnames:
         ncol = draw(st.integers(1, 5))
         cnames = draw(st.lists(Y.ident, min_size=ncol, max_size=ncol, unique=True))
+        if ncol > 1 and draw(st.integers(0, 3)) == 0:
+            # a column whose name is a proper prefix of another one, the longer one declared first or second
+            longer = cnames[1] + draw(st.from_regex(r'[a-z0-9_]{1,4}', fullmatch=True))
+            if longer not in cnames and longer.lower() not in Y.RESERVED:
+                cnames[0] = longer
+                if draw(st.booleans()):
+                    cnames[0], cnames[1] = cnames[1], cnames[0]
         cols = [draw(column(c, enums)) for c in cnames]
         nrow = draw(st.sampled_from([0, 1, 1, 2, 3, 4]))
         if any(c['kind'] == 'charv' for c in cols):
@@ -240,8 +247,12 @@ def rendering(draw, doc):
         if r.flip():
             b = 'typedef enum {\n' + ',\n'.join('    ' + l for l in labels) + '\n} ' + en + ';'
         else:
-            b = 'typedef enum { ' + ', '.join(labels) + ' } ' + en + ';'
+            sep = draw(st.sampled_from([', ', ',', ',  ', ',\t']))
+            pad = draw(st.sampled_from([' ', '', '  ']))
+            b = 'typedef enum {' + pad + sep.join(labels) + pad + '} ' + en + ';'
             r.feats.add('enum-oneline')
+            if sep == ',':
+                r.feats.add('enum-no-blank-after-comma')
         blocks.append(b)
     for t in doc['tables']:
         mem = []
@@ -447,6 +458,10 @@ def classify(case):
                 out.append('char-2d')
     if doc['pairs']:
         out.append('pairs')
+    for t in doc['tables']:
+        names = [c['name'] for c in t['cols']]
+        if any(a != b and b.startswith(a) for a in names for b in names):
+            out.append('column-name-prefix-of-another')
     return sorted(set(out))
 
 
